@@ -153,12 +153,7 @@ def run(scn, owned=None, algo=None):
         sim, rec, evs, periods = S.build_sim(scn, algo=algo, on_call=cap.on_call, on_return=cap.on_return)
         cap.evs = evs
         tr.sim, tr.rec, tr.evs, tr.periods = sim, rec, evs, periods
-        later = []
-        if scn.get("two_phase") is not None:
-            keep = [e for ts, e in sim.event_queue._queue if ts < scn["two_phase"]]
-            later = [e for ts, e in sim.event_queue._queue if ts >= scn["two_phase"]]
-            sim.event_queue._queue = []
-            sim.event_queue.add_events(keep)
+        later = rec.later
         try:
             sim.run()
             if later:
